@@ -10,7 +10,7 @@ for spec in "$@"; do
   if ! git apply /verif/seeded/$id/patch.diff; then echo "== $id PATCH-DOES-NOT-APPLY"; continue; fi
   echo "== $id"
   for c in ${checks//,/ }; do
-    out=$(cd "$VERIF" && VERIF_OUT=/tmp/scratch/vout-mx VERIF_TIME_BUDGET=300 timeout 1500 ./check $c quick 2>&1); rc=$?
+    out=$(cd "$VERIF" && VERIF_OUT=/tmp/scratch/vout-mx VERIF_TIME_BUDGET=${VERIF_TIME_BUDGET:-300} timeout 2400 ./check $c quick 2>&1); rc=$?
     line=$(echo "$out" | grep -m1 -A1 "^VIOLATION\|^INCONCLUSIVE" | tr '\n' ' ' | cut -c1-330)
     echo "$c rc=$rc $line"
   done
